@@ -327,14 +327,16 @@ class C15(Check):
             self._cache_bytes[cid] = (files[FAI], files[AGP])
         return self._cache_bytes[cid]
 
-    def e3(self, nproc, pre, bufsize, ctx, first=None, replay_sched=None):
+    def e3(self, nproc, pre, bufsize, ctx, first=None, replay_sched=None, shared=None):
         snap0, now0 = self.prestate(pre)
-        shared = {FAI, AGP}
+        shared = set(shared) if shared else {FAI, AGP}
         while True:
             ex = _Exec(snap0, now0, nproc, bufsize, shared)
             try:
                 return self._e3(ex, nproc, pre, bufsize, ctx, first, replay_sched)
             except _Promote as p:
+                if replay_sched is not None:
+                    raise RuntimeError(f"replay touched a path outside its recorded scheduling set: {p.path}") from None
                 shared = shared | {p.path}
                 ctx.count("e3_private_path_promoted")
 
@@ -342,7 +344,7 @@ class C15(Check):
         sampled = []
 
         def finish(sched, st):
-            case = ["e3", nproc, pre, bufsize, list(sched)]
+            case = ["e3", nproc, pre, bufsize, list(sched), sorted(ex.shared)]
             ctx.cur = case
             ctx.evaluations += 1
             for p, res in enumerate(st["results"]):
@@ -409,11 +411,12 @@ class C15(Check):
             _, bufsize, contents, hist = case
             self.e2(bufsize, ctx, contents=tuple(contents), replay_hist=[tuple(h) for h in hist])
         else:
-            _, nproc, pre, bufsize, sched = case
-            self.e3(nproc, pre, bufsize, ctx, replay_sched=sched)
+            _, nproc, pre, bufsize, sched = case[:5]
+            shared = case[5] if len(case) > 5 else None
+            self.e3(nproc, pre, bufsize, ctx, replay_sched=sched, shared=shared)
             # determinism: the same schedule must give the same observations
             c2 = type(ctx)(ctx.tier, ctx.seed)
-            self.e3(nproc, pre, bufsize, c2, replay_sched=sched)
+            self.e3(nproc, pre, bufsize, c2, replay_sched=sched, shared=shared)
             if sorted(c2.violations) != sorted(ctx.violations):
                 raise RuntimeError("non-deterministic replay of a schedule")
 
